@@ -63,10 +63,30 @@ fn parse_content(
                         Span::new(base_position + position, base_position + end_position),
                     )
                 })?;
-                let code = if first_char == 'x' {
-                    u32::from_str_radix(&entity[1..], 16)
+                // only digits are allowed: the integer parsers would also
+                // accept a leading sign
+                let (digits, is_hex) = if first_char == 'x' {
+                    (&entity[1..], true)
                 } else {
-                    entity.parse::<u32>()
+                    (entity, false)
+                };
+                let only_digits = digits.chars().all(|c| {
+                    if is_hex {
+                        c.is_ascii_hexdigit()
+                    } else {
+                        c.is_ascii_digit()
+                    }
+                });
+                if !only_digits {
+                    return Err(ParseError::InvalidEntity(
+                        entity.to_string(),
+                        Span::new(base_position + position, base_position + end_position),
+                    ));
+                }
+                let code = if is_hex {
+                    u32::from_str_radix(digits, 16)
+                } else {
+                    digits.parse::<u32>()
                 };
                 let code = code.map_err(|_| {
                     ParseError::InvalidEntity(
